@@ -108,14 +108,24 @@ class Family:
             raise AnalysisError(f"{fn.qualname}: expected exactly one return with a value, found {len(rets)}")
         return rets[0]
 
+    def return_stmts(self, fn):
+        rets = [st for st in cfg_of(fn).all_stmts() if isinstance(st, ast.Return) and st.value is not None]
+        if not rets:
+            raise AnalysisError(f"{fn.qualname}: no return with a value")
+        return rets
+
     def slots(self):
-        """Canonical slot tuple of _get_scipy_parameters with each formal bound to itself."""
+        """Canonical slot tuple of _get_scipy_parameters with each formal bound to itself (joined over all returns)."""
         fn = self.m["_get_scipy_parameters"]
-        r = self.return_stmt(fn)
-        t = self.b(fn).term(r.value, r)
-        if t[0] != "tuple":
-            raise AnalysisError(f"{fn.qualname}: return value is not a tuple display: {show(t)[:80]}")
-        return t[1]
+        ts = []
+        for r in self.return_stmts(fn):
+            t = self.b(fn).term(r.value, r)
+            if t[0] != "tuple":
+                raise AnalysisError(f"{fn.qualname}: return value is not a tuple display: {show(t)[:80]}")
+            ts.append(t[1])
+        if len({len(x) for x in ts}) != 1:
+            raise AnalysisError(f"{fn.qualname}: returns of different length")
+        return tuple(phi(x[k] for x in ts) for k in range(len(ts[0])))
 
     def scipy_name(self, t):
         """'weibull_min' from global scipy.stats.weibull_min.<m>."""
